@@ -26,10 +26,10 @@ Instance(r, A, x, y) ==
      IN \A i \in DOMAIN lr : IF IsVarFeat(la[i].f) THEN lr[i].f \in pool ELSE lr[i].f = la[i].f
 
 (* premise verdict pv in {"yes","no","unspec"} *)
-Fin(pv, modf, other, A, r, x, y, tag) ==
+Fin(pv, modf, other, A, r, x, y, tag, m1, m2) ==
   IF pv = "no" THEN tag \o ".premise"
   ELSE IF pv = "unspec" THEN ""
-  ELSE IF (IF modf THEN r = other ELSE Instance(r, A, x, y)) THEN "" ELSE tag \o ".result"
+  ELSE IF (IF modf THEN r = other ELSE Instance(r, A, x, y) /\ InstanceOf(r, A, m1, m2)) THEN "" ELSE tag \o ".result"
 
 BDepth(sym)  == CASE sym = "<B1" -> 0 [] sym = "<B2" -> 1 [] sym = "<B3" -> 2 [] sym = "<B4" -> 3
 BxDepth(sym) == CASE sym = ">Bx1" -> 0 [] sym = ">Bx2" -> 1 [] sym = ">Bx3" -> 2
@@ -39,21 +39,21 @@ JaWhy(x, y, e, roots) ==
   IF e.hl # FALSE THEN "head_not_right"
   ELSE IF sym = ">" THEN
         IF ~(x.k = "F" /\ SlashOK("/", x.s)) THEN ">.shape"
-        ELSE Fin(Compat(x.r, y), IsModifier(x), y, x.l, r, x, y, ">")
+        ELSE Fin(Compat(x.r, y), IsModifier(x), y, x.l, r, x, y, ">", x.r, y)
   ELSE IF sym = "<" THEN
         IF ~(y.k = "F" /\ SlashOK("\\", y.s)) THEN "<.shape"
-        ELSE Fin(Compat(y.r, x), IsModifier(y), x, y.l, r, x, y, "<")
+        ELSE Fin(Compat(y.r, x), IsModifier(y), x, y.l, r, x, y, "<", y.r, x)
   ELSE IF sym = ">B" THEN
         IF ~(x.k = "F" /\ y.k = "F" /\ SlashOK("/", x.s) /\ SlashOK("/", y.s)) THEN ">B.shape"
-        ELSE Fin(Compat(x.r, y.l), IsModifier(x), y, Fun(x.l, "/", y.r), r, x, y, ">B")
+        ELSE Fin(Compat(x.r, y.l), IsModifier(x), y, Fun(x.l, "/", y.r), r, x, y, ">B", x.r, y.l)
   ELSE IF sym \in {"<B1", "<B2", "<B3", "<B4"} THEN
         LET p == Peel(x, BDepth(sym)) IN
         IF ~(y.k = "F" /\ SlashOK("\\", y.s) /\ p.ok /\ p.core.k = "F" /\ SlashOK("\\", p.core.s)) THEN sym \o ".shape"
-        ELSE Fin(Compat(y.r, p.core.l), IsModifier(y), x, Rebuild(Fun(y.l, p.core.s, p.core.r), p.args), r, x, y, sym)
+        ELSE Fin(Compat(y.r, p.core.l), IsModifier(y), x, Rebuild(Fun(y.l, p.core.s, p.core.r), p.args), r, x, y, sym, y.r, p.core.l)
   ELSE IF sym \in {">Bx1", ">Bx2", ">Bx3"} THEN
         LET p == Peel(y, BxDepth(sym)) IN
         IF ~(x.k = "F" /\ SlashOK("/", x.s) /\ p.ok /\ p.core.k = "F" /\ SlashOK("\\", p.core.s)) THEN sym \o ".shape"
-        ELSE Fin(Compat(x.r, p.core.l), IsModifier(x), y, Rebuild(Fun(x.l, p.core.s, p.core.r), p.args), r, x, y, sym)
+        ELSE Fin(Compat(x.r, p.core.l), IsModifier(x), y, Rebuild(Fun(x.l, p.core.s, p.core.r), p.args), r, x, y, sym, x.r, p.core.l)
   ELSE IF sym = "SSEQ" THEN (IF x \in roots /\ y \in roots /\ r = y THEN "" ELSE "SSEQ.unjustified")
   ELSE "unknown_symbol"
 
